@@ -8,6 +8,22 @@
 
 #include "node.h"
 
+/* clone child list and attach to new parent */
+static MPT_STRUCT(node) *_clone_children(MPT_STRUCT(node) *to, const MPT_STRUCT(node) *src)
+{
+	MPT_STRUCT(node) *sub;
+	
+	if (!(sub = mpt_list_clone(src))) {
+		return 0;
+	}
+	to->children = sub;
+	while (sub) {
+		sub->parent = to;
+		sub = sub->next;
+	}
+	return to->children;
+}
+
 extern MPT_STRUCT(node) *mpt_list_clone(const MPT_STRUCT(node) *src)
 {
 	MPT_STRUCT(node) *first = 0, *last = 0;
@@ -23,7 +39,7 @@ extern MPT_STRUCT(node) *mpt_list_clone(const MPT_STRUCT(node) *src)
 			}
 			/* require empty or cloned subtree */
 			if (!src->children
-			    || !(cpy->children = mpt_list_clone(src->children))) {
+			    || _clone_children(cpy, src->children)) {
 				continue;
 			}
 		}
@@ -44,7 +60,7 @@ extern MPT_STRUCT(node) *mpt_tree_clone(const MPT_STRUCT(node) *src)
 		return 0;
 	}
 	if (src->children
-	    && !(cpy->children = mpt_list_clone(src->children))) {
+	    && !_clone_children(cpy, src->children)) {
 		mpt_node_destroy(cpy);
 		return 0;
 	}
